@@ -111,6 +111,16 @@ func GetCacheWithConfig[K comparable, V any](
 	if cached, ok := m.caches.Load(name); ok {
 		return assertCache[K, V](name, cached)
 	}
+
+	// a typed registration pins the name's type parameters: creating an instance
+	// of another type here would make every later GetCache for the registered
+	// type fail against it.
+	m.configMu.RLock()
+	reg, exists := m.registrations[name]
+	m.configMu.RUnlock()
+	if exists && reg.cacheType != nil && reg.cacheType != cacheTypeOf[K, V]() {
+		return nil, newCacheError("get", name, ErrTypeMismatch)
+	}
 	return createCache(m, name, cacheRegistration{config: config}, opts...)
 }
 
